@@ -225,6 +225,8 @@ func (c *canonicaliser) thread(th *Thread) {
 	c.i32(int32(th.NNondet))
 	c.i32(int32(th.Sleeps))
 	c.i32(int32(th.IdleSleeps))
+	c.i32(int32(th.FireNo))
+	c.i32(int32(th.VisDone))
 	c.term(th.Slept)
 	if th.Panic != nil {
 		c.u8(1)
@@ -368,6 +370,8 @@ func (e *Engine) canon(st *State) [16]byte {
 		c.term(f.t)
 	}
 	c.i32(int32(st.NFresh))
+	c.i32(int32(st.TotalFires))
+	c.i32(int32(st.FiresChecked))
 	for len(c.queue) > 0 {
 		id := c.queue[0]
 		c.queue = c.queue[1:]
